@@ -1,6 +1,7 @@
 import Driver.Common
 import RxModel.OpsElem
 import RxModel.OpsSlice
+import RxModel.OpsVal
 open Lean Drv Ops
 
 /-!
@@ -67,26 +68,10 @@ def truthyRes (r : Res) : Except Err Bool := r.map Val.truthy
 def pred1 (f : FnTab) : Val → Except Err Bool := fun v => truthyRes (f.call v)
 def pred2 (f : FnTab) : Val → Nat → Except Err Bool := fun v i => truthyRes (f.call (.tup [v, .int i]))
 
-/-- `mapper(*values)` on this value domain -/
-def starred (f : Option FnTab) (v : Val) : Except Err Val :=
-  match f with
-  | none => .ok v
-  | some f =>
-    match v with
-    | .tup [x] => f.call x
-    | .tup xs => f.call (.tup xs)
-    | .lst [x] => f.call x
-    | .lst xs => f.call (.tup xs)
-    | _ => .error "TypeError"
-
-/-- `x[key]` -/
-def pluckGet (key : Val) (x : Val) : Except Err Val :=
-  match x with
-  | .dct kvs =>
-    match kvs.find? (fun (k, _) => Val.pyEq k key) with
-    | some (_, v) => .ok v
-    | none => .error "KeyError"
-  | _ => .error "TypeError"
+/-- the FnTab protocol for n-ary callbacks: one argument is looked up as itself, several as their tuple -/
+def tabArgs (f : FnTab) : List Val → Except Err Val
+  | [x] => f.call x
+  | xs => f.call (.tup xs)
 
 def pyEqCmp (cmp : Option FnTab) : Val → Val → Bool := fun a b =>
   match cmp with
@@ -114,12 +99,16 @@ def handleC05 (j : Json) : Except String Json := do
   let idv : Val → Val := id
   let go {α β} (op : Op α β) (cin : Val → α) (cout : β → Val) : Json := runTimed lag op cin cout tsub inp
   match name with
-  | "map" => pure (go (mapOp (← getFn j "f").call) idv idv)
+  | "map" =>
+    match ← getFnOpt j "f" with
+    | some f => pure (go (mapOp f.call) idv idv)
+    | none => pure (go (mapOp (fun v : Val => .ok v)) idv idv)          -- mapper or identity
   | "map_indexed" =>
-    let f ← getFn j "f"
-    pure (go (mapIndexedOp (fun x i => f.call (.tup [x, .int i]))) idv idv)
-  | "starmap" => pure (go (mapOp (starred (← getFnOpt j "f"))) idv idv)
-  | "pluck" => pure (go (mapOp (pluckGet (← getVal j "key"))) idv idv)
+    match ← getFnOpt j "f" with
+    | some f => pure (go (mapIndexedOp (fun x i => f.call (.tup [x, .int i]))) idv idv)
+    | none => pure (go (mapIndexedOp (fun (x : Val) _ => .ok x)) idv idv)  -- mapper_indexed or _identity
+  | "starmap" => pure (go (starmapOp ((← getFnOpt j "f").map tabArgs)) idv idv)
+  | "pluck" => pure (go (pluckOp (← getVal j "key")) idv idv)
   | "filter" => pure (go (filterOp (pred1 (← getFn j "p"))) idv idv)
   | "filter_indexed" => pure (go (filterIndexedOp ((← getFnOpt j "p").map pred2)) idv idv)
   | "take" =>
